@@ -106,9 +106,14 @@ namespace sqf::parser::config
         {
             auto it = start;
             auto len = ::sqf::runtime::util::strlen(against);
-            for (size_t i = 0; i < len && it < m_end; i++, ++it)
+            size_t i = 0;
+            for (; i < len && it < m_end; i++, ++it)
             {
                 if ((char)std::tolower(*it) != against[i]) { return 0; }
+            }
+            if (i < len)
+            { // input ended inside the keyword: `cla`, `del`, `#li` are not the keyword
+                return 0;
             }
             if (it < m_end && ((char)std::tolower(*it) >= 'a' && (char)std::tolower(*it) <= 'z'))
             {
